@@ -123,7 +123,19 @@ def gen_cfg(rnd, explainer, exact):
         "steps": rnd.choice([6, 10, 16, 25]),
         "vary_calls": rnd.random() < 0.5,
         "pass_alpha": True,
+        "shuffle_keys": rnd.random() < 0.3,          # observations list their keys in varying order (key-based models only)
+        "keyword_call": rnd.random() < 0.3,          # explain_one(x_i=..., y_i=...) instead of positional arguments
+        "names_as_tuple": False,
+        "out_type": "plain" if exact else rnd.choice(["plain", "plain", "np64", "np32-loss"]),   # NumPy scalars as model outputs / loss values
+        "label_keys": rnd.choice(["int", "int", "str"]),                                     # keys of multi-label outputs
     }
+    if rnd.random() < 0.04 and not exact:            # long stream: the default / size-100 storages fill up and start replacing
+        cfg["steps"] = rnd.choice([130, 260])
+        cfg["storage"] = rnd.choice([("uniform", 100, False), ("geometric", 100, None, False), ("interval", 100, True)])
+        cfg["d"] = min(cfg["d"], 3)
+        cfg["n_inner"] = min(cfg["n_inner"], 2)
+    if cfg["model"] == "positional":
+        cfg["shuffle_keys"] = False
     if cfg["model"] in ("multi", "grow") and cfg["loss"] in ("sq", "abs") and not exact:
         pass
     return cfg
@@ -140,8 +152,9 @@ class Scenario:
         self.clock = Clock()
         self.names = make_names(cfg["names"], cfg["d"])
         self.names0 = list(self.names)
-        self.model = Models(cfg["model"], self.names, exact=cfg["exact"], clock=self.clock)
-        self.loss = Losses(cfg["loss"], exact=cfg["exact"], clock=self.clock)
+        self.model = Models(cfg["model"], self.names, exact=cfg["exact"], clock=self.clock,
+                            out_type=cfg.get("out_type", "plain"), label_keys=cfg.get("label_keys", "int"))
+        self.loss = Losses(cfg["loss"], exact=cfg["exact"], clock=self.clock, out_type=cfg.get("out_type", "plain"))
         loss_fn = self.loss
         if strict_loss:
             inner = self.loss
@@ -174,7 +187,8 @@ class Scenario:
         else:
             self.e = IncrementalPFI(self.model, loss_fn, self.names, **kw)
         self.extras = [f"extra{j}" for j in range(cfg.get("extras", 0))]
-        self.stream = UniqueStream(self.names, seed=seed, exact=cfg["exact"], extras=self.extras)
+        self.stream = UniqueStream(self.names, seed=seed, exact=cfg["exact"], extras=self.extras,
+                                   shuffle_keys=cfg.get("shuffle_keys", False))
         self.t = 0
         self.max_loss = 1.0
         for _ in range(cfg.get("warm_start", 0)):
@@ -201,7 +215,10 @@ class Scenario:
         if x is None:
             x, y = self.next_obs()
         self.clock.reset()
-        ret = self.e.explain_one(x, y, **kw)
+        if self.cfg.get("keyword_call"):
+            ret = self.e.explain_one(x_i=x, y_i=y, **kw)
+        else:
+            ret = self.e.explain_one(x, y, **kw)
         self.t += 1
         return x, y, ret, list(self.clock.log)
 
